@@ -92,6 +92,19 @@ def gen_cases(ctx):
         r, k, c = rng.randrange(1, 13), rng.randrange(1, 13), rng.randrange(1, 13)
         a, b = rand_matrix(rng, r, k), rand_matrix(rng, k, c)
         cases.append(("times", "random", r, "c11 times %d %d %d %d %s %s" % (r, k, k, c, mhex(a), mhex(b))))
+    # products with STRUCTURED left operands (entries 0 and 1, unit triangular, a row of ones, permutations) and wide right
+    # operands (16, 17, 33, 64 columns: where a row kernel or a vector path would take over)
+    for kind in ("identity", "perm", "upper", "lower", "vandermonde", "sparse", "dupcol"):
+        for c in (1, 15, 16, 17, 33, 64):
+            n = rng.choice([3, 5, 8])
+            a = structured(rng, kind, n)
+            if kind in ("upper", "lower"):
+                a = [[(1 if i_ == j_ else (x_ if rng.random() < 0.5 else (1 if x_ else 0))) for j_, x_ in enumerate(row_)] for i_, row_ in enumerate(a)]
+            b = rand_matrix(rng, n, c)
+            cases.append(("times", "structured-" + kind, n, "c11 times %d %d %d %d %s %s" % (n, n, n, c, mhex(a), mhex(b))))
+    ones = [[1] * 6, [1, 2, 1, 3, 1, 1], [0, 1, 1, 0, 1, 5]]
+    for c in (16, 40):
+        cases.append(("times", "rows-of-ones", 3, "c11 times 3 6 6 %d %s %s" % (c, mhex(ones), mhex(rand_matrix(rng, 6, c)))))
     for (r, k, k2, c) in ((2, 2, 1, 2), (1, 3, 2, 1), (3, 1, 3, 3)):
         a, b = rand_matrix(rng, r, k), rand_matrix(rng, k2, c)
         cases.append(("times", "mismatch", r, "c11 times %d %d %d %d %s %s" % (r, k, k2, c, mhex(a), mhex(b))))
